@@ -61,6 +61,8 @@ type Frame struct {
 	lastArgs     []Term       // arguments of the most recent call (for "at call ... assume" clauses)
 	lastArgTypes []types.Type
 	lastOrd      int
+	letTypes     map[string]types.Type // Go types of the names bound by "at call ... let"
+	letSorts     map[string]Sort
 }
 
 var frameCounter int
@@ -518,6 +520,7 @@ func (fr *Frame) instr(in ssa.Instruction, st *State, pc Term, b *ssa.BasicBlock
 		}
 		ref := vc.allocRef(st, pc)
 		fr.vals[in] = ref
+		vc.assumeRType(pc, ref, elem)
 		l := vc.refLoc(ref, elem)
 		fr.storeToLoc(st, l, vc.zero(elem))
 	case *ssa.Store:
@@ -609,6 +612,7 @@ func (fr *Frame) instr(in ssa.Instruction, st *State, pc Term, b *ssa.BasicBlock
 		vc.oblige("bounds", "safety", "makeslice", pc, and(le(tZero, ln), le(ln, cp)), "make: 0 <= len <= cap")
 		elem := in.Type().Underlying().(*types.Slice).Elem()
 		base := vc.allocRef(st, pc)
+		vc.assumeRType(pc, base, in.Type())
 		hname := elemHeapName(elem)
 		hs := arraySort(SInt, arraySort(SInt, vc.sortOf(elem)))
 		h := vc.heap(st, hname, hs)
@@ -619,10 +623,12 @@ func (fr *Frame) instr(in ssa.Instruction, st *State, pc Term, b *ssa.BasicBlock
 		fr.makeMap(in, st, pc)
 	case *ssa.MakeChan:
 		fr.vals[in] = vc.allocRef(st, pc)
+		vc.assumeRType(pc, fr.vals[in], in.Type())
 	case *ssa.MakeClosure:
 		f := in.Fn.(*ssa.Function)
 		fr.closures[in] = &closureInfo{fn: f, bindings: in.Bindings}
 		fr.vals[in] = vc.allocRef(st, pc)
+		vc.assumeRType(pc, fr.vals[in], in.Type())
 	case *ssa.Lookup:
 		fr.lookup(in, st, pc)
 	case *ssa.MapUpdate:
@@ -658,6 +664,7 @@ func (fr *Frame) instr(in ssa.Instruction, st *State, pc Term, b *ssa.BasicBlock
 		// the spawned function's preconditions must hold where it is started
 		fr.goRequires(in, st, pc)
 		vc.warn("%s: go statement: effects of the goroutine are not tracked (heap havoc)", fr.fn.Name())
+		preGo := st.clone()
 		vc.havocAllHeaps(st)
 		// ghosts that the spawned function (or what it calls) assigns with
 		// set clauses may change at any time from here on
@@ -667,7 +674,13 @@ func (fr *Frame) instr(in ssa.Instruction, st *State, pc Term, b *ssa.BasicBlock
 				vc.warn("%s: go statement starts a function with set clauses for %s: the ghost is havoced (interference is not modelled)", fr.fn.Name(), h)
 			}
 		}
-		fr.havocCaptured(st, pc)
+		if ci, ok := fr.closures[in.Call.Value]; ok {
+			// the goroutine writes only the variables it captures itself
+			fr.havocCapturedBy(ci, st, pc)
+		} else {
+			fr.havocCaptured(st, pc)
+		}
+		fr.goEnsures(in, st, preGo, pc)
 	case *ssa.Send:
 		fr.send(in, st, pc)
 	case *ssa.Select:
@@ -1170,6 +1183,7 @@ func (fr *Frame) convert(in *ssa.Convert, st *State, pc Term) {
 		if sl, ok := to.Underlying().(*types.Slice); ok {
 			if eb, ok := sl.Elem().Underlying().(*types.Basic); ok && eb.Kind() == types.Uint8 {
 				base := vc.allocRef(st, pc)
+				vc.assumeRType(pc, base, to)
 				hname := elemHeapName(sl.Elem())
 				h := vc.heap(st, hname, arraySort(SInt, arraySort(SInt, SInt)))
 				arr := vc.fresh("bytes", arraySort(SInt, SInt))
@@ -1265,6 +1279,27 @@ func (fr *Frame) havocCaptured(st *State, pc Term) {
 				st.cells[a] = fr.freshTyped("cap:"+a.Comment, elem, st, pc)
 			}
 		}
+	}
+}
+
+// havocCapturedBy havocs the local cells that the given closure captures and
+// may write (directly, or by handing them on to a nested closure).
+func (fr *Frame) havocCapturedBy(ci *closureInfo, st *State, pc Term) {
+	for i, fv := range ci.fn.FreeVars {
+		if i >= len(ci.bindings) || !freeVarWritten(ci.fn, fv, 0) {
+			continue
+		}
+		a, ok := ci.bindings[i].(*ssa.Alloc)
+		if !ok || !fr.cellAlloc[a] {
+			// not a cell of this frame (a free variable of an enclosing
+			// function, or an escaping variable): fall back to the coarse havoc
+			fr.havocCaptured(st, pc)
+			return
+		}
+		if _, live := st.cells[a]; !live {
+			continue
+		}
+		st.cells[a] = fr.freshTyped("cap:"+a.Comment, derefType(a.Type()), st, pc)
 	}
 }
 
